@@ -9,18 +9,36 @@ transition system — they must leave the queue exactly as it is — so they are
 def parseAct (s : String) : Option TQ.Act :=
   if s.startsWith "p" then (s.drop 1).toString.toNat?.map TQ.Act.push
   else if s.startsWith "n" then (s.drop 1).toString.toNat?.map TQ.Act.next
+  else if s.startsWith "w" || s.startsWith "v" then (s.drop 1).toString.toNat?.map TQ.Act.push
   else none
+
+/-- `w<id>` / `v<id>`: a task submitted through `WriteAsync` / `WritevAsync`. It is a `push` whose job completes by itself
+as soon as it runs (nothing gates it): after every action the running jobs of that kind take their `next` step. -/
+def isAuto (s : String) : Option Nat :=
+  if s.startsWith "w" || s.startsWith "v" then (s.drop 1).toString.toNat? else none
+
+def tqSettle (auto : List Nat) : Nat → TQ × Nat → TQ × Nat
+  | 0, r => r
+  | fuel + 1, (s, m) =>
+    match s.running.find? (· ∈ auto) with
+    | none => (s, m)
+    | some j =>
+      match s.step (.next j) with
+      | none => (s, m)
+      | some s' => tqSettle auto fuel (s', Nat.max m s'.running.length)
 
 /-- `taskq <max> <act,act,…>`: run the actions, then let everything drain; report the start order,
 the largest number of simultaneously running jobs, and the jobs still queued/running before the drain -/
 def runTaskQ (args : List String) : Res :=
   match args with
   | [max, acts] =>
-    let as := if acts == "." then [] else (acts.splitOn ",").filterMap parseAct
+    let toks := if acts == "." then [] else acts.splitOn ","
+    let as := toks.filterMap parseAct
+    let auto := toks.filterMap isAuto
     let step := fun (acc : Option (TQ × Nat)) (a : TQ.Act) =>
       match acc with
       | none => none
-      | some (s, m) => (s.step a).map fun s' => (s', Nat.max m s'.running.length)
+      | some (s, m) => (s.step a).map fun s' => tqSettle auto (toks.length + 1) (s', Nat.max m s'.running.length)
     match as.foldl step (some (TQ.init max.toInt!, 0)) with
     | none => bad "action-not-enabled"
     | some (s, m) =>
